@@ -138,12 +138,40 @@ func (e *Enc) Encode() (err error) {
 		li.writes = disc[li.header]
 	}
 	e.encodeBody()
+	{
+		var qs []string
+		for q := range e.callQueries {
+			qs = append(qs, q)
+		}
+		sort.Strings(qs)
+		for _, q := range qs {
+			found := false
+			for k := range e.callKeys {
+				if strings.HasSuffix(k, q) {
+					found = true
+					break
+				}
+			}
+			if !found {
+				// a misspelt or vanished callee would make calls("...") a silent constant 0
+				e.curR = tTrue
+				e.assertOb("calls-unmatched:"+q, tFalse, fmt.Sprintf("the contract counts calls to %q, but the body makes no call whose name ends so", q), token.NoPos)
+			}
+		}
+	}
 	for _, k := range e.missingLoops {
 		e.curR = tTrue
 		e.assertOb(fmt.Sprintf("loop-missing#%d", k), tFalse,
 			fmt.Sprintf("the contract states invariants for loop %d, but the body has %d loops", k, len(e.loopList)), token.NoPos)
 	}
 	if e.fc != nil {
+		for i, ar := range e.fc.AtReturns {
+			if !ar.Used {
+				e.curR = tTrue
+				e.assertOb(fmt.Sprintf("return-missing#%d.%d", ar.Ord, i+1), tFalse,
+					fmt.Sprintf("the contract asserts `%s` at return %d, but the body has no such (reachable) return", ar.C.Src, ar.Ord), token.NoPos)
+			}
+		}
 		for i, ac := range e.fc.AtCalls {
 			if !ac.Used {
 				// the contract anchors a claim at a call that the body no longer makes: the claim cannot be
@@ -539,7 +567,7 @@ func (e *Enc) ret(r *ssa.Return) {
 		return
 	}
 	e.frameCheck(r)
-	if len(e.fc.Ensures) == 0 {
+	if len(e.fc.Ensures) == 0 && len(e.fc.AtReturns) == 0 {
 		return
 	}
 	ctx := e.baseCtx()
@@ -552,6 +580,28 @@ func (e *Enc) ret(r *ssa.Return) {
 	}
 	if len(names) == 1 {
 		ctx.vars["result"] = ctx.vars[names[0]]
+	}
+	if len(e.fc.AtReturns) > 0 {
+		k := e.returnOrdinal(r)
+		for i := range e.fc.AtReturns {
+			ar := &e.fc.AtReturns[i]
+			if ar.Ord != k {
+				continue
+			}
+			ar.Used = true
+			lc := ctx.child()
+			lc.at = r.Block()
+			lc.atEnd = true
+			lc.params = map[string]bool{}
+			for _, p := range e.fn.Params {
+				lc.params[p.Name()] = true
+			}
+			t, err := lc.EvalBool(ar.C.E)
+			if err != nil {
+				e.fatal("at return %d: %v", k, err)
+			}
+			e.assertOb(fmt.Sprintf("at@return#%d.%d", k, i+1), t, fmt.Sprintf("assertion at return %d: %s", k, ar.C.Src), posOf(r))
+		}
 	}
 	for j, en := range e.fc.Ensures {
 		t, err := ctx.EvalBool(en.E)
@@ -823,4 +873,31 @@ func sortedKeys(m map[string]bool) []string {
 	}
 	sort.Strings(out)
 	return out
+}
+
+// returnOrdinal: 1-based position of a return instruction among the function's returns in source order
+// (synthetic returns without a position come last).
+func (e *Enc) returnOrdinal(r *ssa.Return) int {
+	if e.retOrder == nil {
+		var rs []*ssa.Return
+		for _, b := range e.fn.Blocks {
+			for _, in := range b.Instrs {
+				if x, ok := in.(*ssa.Return); ok {
+					rs = append(rs, x)
+				}
+			}
+		}
+		sort.SliceStable(rs, func(i, j int) bool {
+			pi, pj := rs[i].Pos(), rs[j].Pos()
+			if pi.IsValid() != pj.IsValid() {
+				return pi.IsValid()
+			}
+			return pi < pj
+		})
+		e.retOrder = map[*ssa.Return]int{}
+		for i, x := range rs {
+			e.retOrder[x] = i + 1
+		}
+	}
+	return e.retOrder[r]
 }
